@@ -82,6 +82,15 @@ def check_table_roles(cx: Cx, ob: Ob, tables_wanted: list[str]) -> None:
                     vrec = e.value[1] if op(e.value) == "attr" else None
                     if vrec is not None and vrec != e.record and not (two_records and origin == "_index"):
                         ob.violate(e.fn, e.site, f"{table}: key and value come from different records", detail=f"{table}:cross-record")
+            if table == "pattern_map" and origin == "_index":
+                # patterns are optional: the constructor enters a record only when it HAS a pattern; the indexer must
+                # make the same selection, or converters built incrementally carry `prefix -> None` entries
+                cent = ctor.get(table) or []
+                ctor_sel = any(op(c) == "attr" and c[2] == "pattern" and pol is True for e0 in cent for c, pol in e0.conditions)
+                for e in entries:
+                    sel = any(op(c) == "attr" and c[2] == "pattern" and pol is True for c, pol in e.conditions)
+                    if ctor_sel and not sel:
+                        ob.violate(e.fn, e.site, "_index enters the record into pattern_map whether or not it has a pattern (the constructor enters only records with one): after add_record / add_prefix of a record without pattern, pattern_map holds `prefix -> None`, which a converter built from the same records does not", detail="pattern_map:unselected")
             for f in sorted(key_fields):
                 good = [e for e in entries if f in e.key_fields and e.value_field == value_field]
                 if not good:
